@@ -131,7 +131,7 @@ type RunCfg struct {
 	KeyModes []int
 	Reopen   bool // C15: close and reopen before every read-only tail / at the end
 	Workers  int
-	Addr     string // "", "host:<base>", "slashes"
+	Addr     string // "", "host:<base>", "slashes", "api" (Backend methods called directly)
 }
 
 // runTour executes one tour on a fresh system; returns the first mismatch.
@@ -150,6 +150,8 @@ func runTour(cfg *RunCfg, sysName string, salt int64, keyMode int, tour []Step) 
 		x.Addr = hostStyle(cfg.Addr[5:])
 	case cfg.Addr == "slashes":
 		x.Addr = extraSlashes
+	case cfg.Addr == "api":
+		x.Api = true
 	case strings.HasPrefix(cfg.Addr, "plainhost:"):
 		x.Host = cfg.Addr[10:]
 	}
@@ -162,6 +164,10 @@ func runTour(cfg *RunCfg, sysName string, salt int64, keyMode int, tour []Step) 
 			x.Sys = sys
 		}
 		obs := x.Do(st.Op)
+		if obs.NoReq && x.Api {
+			// no counterpart on the Go API path: the rest of the history would run on a different state
+			return nil, steps, nil
+		}
 		steps++
 		if bad := x.Compare(st.Op, st.R, obs); len(bad) > 0 {
 			return &Mismatch{
